@@ -90,10 +90,13 @@ SHARED = [("C02", "split_lemma", ["C02.split"]),
           ("C06", "loop_thr_max", ["C06.loop.body[thr=set,max=set]"]), ("C06", "lemmas", ["C06.crit", "C06.centroid.mean"]),
           ("C20", "lemmas", ["C20.blocks"]), ("C20", "entry", ["C20.entry"]),
           ("C14", "dask_same", ["C14.dask"])]
-REPLAY = [("C04", "effects_repro.py", "chunking", {})]
+REPLAY = [("C03.loop.body", "gmm_repro.py", "dask_isolated", {"trainer": "ml"}), ("C05.loop.body", "gmm_repro.py", "dask_isolated", {"trainer": "map"}),
+          ("C04.fa", "fa_repro.py", "array_vs_list", {}), ("C14", "linear_repro.py", "dask", {}), ("C06", "effects_repro.py", "chunking", {}),
+          ("C20", "effects_repro.py", "chunking", {}), ("C04", "effects_repro.py", "chunking", {})]
 TRUSTED = ["Dask contract (DESIGN §3): dask.compute(dask.delayed(f)(args)) == f(value-equal args), arguments either shared or fresh copies; tasks run after "
            "their data dependencies in no other guaranteed order; to_delayed().ravel().tolist() lists the chunk grid row-major; persist/rebalance keep values",
            "dask.array implements the NumPy functions used with the same values"]
 ASSUMPTIONS = ["real scheduler interleavings and real serialisation are replaced by the frame argument over the Dask contract",
                "rounding differences between chunkings (and iteration-count flips at the threshold caused by them) are not decided"]
 LEVEL_NOTE = "proof over the trusted Dask contract; ISV/JFA array training (fit_using_array) is covered by the bounded objrun engine only"
+XCHECK = ['gmm', 'kmeans', 'wccn']
